@@ -476,6 +476,7 @@ class Interp:
         self.ctx = ctx
         self.contracts = contracts or {}   # qualname -> Contract (use instead of body)
         self.loop_specs = loop_specs or {}
+        self.fn_nodes = []
         self.max_unroll = max_unroll
         self.float_mode = float_mode
         self.hooks = hooks or {}
@@ -712,7 +713,7 @@ class Interp:
         env.assign(s.name, v)
 
     def st_While(self, s, env):
-        spec = self.loop_specs.get(('while', s.lineno)) or self.loop_specs.get(id(s))
+        spec = self._loop_spec('while', s, env)
         if spec is not None:
             return spec.run_while(self, s, env)
         n = 0
@@ -729,6 +730,21 @@ class Interp:
                 return
             except _Continue:
                 continue
+
+    def _loop_spec(self, kind, s, env):
+        """The specification registered for this loop: keyed by (kind, qualified function name, ordinal of the loop among the
+        function's loops of that kind) - never by line number."""
+        if not self.loop_specs:
+            return None
+        node = self.fn_nodes[-1] if self.fn_nodes else None
+        if node is None:
+            return None
+        for (k, qual, ordinal), spec in self.loop_specs.items():
+            if k == kind and (qual == env.qual or env.qual.endswith('.' + qual) or env.qual.endswith(':' + qual)):
+                from .loops import loop_ordinal
+                if loop_ordinal(node, s) == ordinal:
+                    return spec
+        return None
 
     def st_For(self, s, env):
         it = self.eval(s.iter, env)
@@ -1091,7 +1107,7 @@ class Interp:
         m = models.BUILTINS.get(_hashable_id(f))
         if m is not None:
             return m(self, *args, **kwargs)
-        if type(f).__name__ == 'builtin_function_or_method' and type(getattr(f, '__self__', None)).__name__ == 'Pattern' \
+        if type(f).__name__ in ('builtin_function_or_method', 'builtin_method') and type(getattr(f, '__self__', None)).__name__ == 'Pattern' \
                 and f.__name__ in ('match', 'fullmatch') and len(args) == 1 and not kwargs and is_sym(args[0]):
             return models.regex_match(self, f.__self__, f.__name__, args[0])
         if isinstance(f, Obj):
@@ -1104,7 +1120,7 @@ class Interp:
                 return f(*args, **kwargs)
             except Exception as ex:
                 self.raise_(type(ex), *ex.args)
-        raise Unsupported('call of %r' % (f,))
+        raise Unsupported('call of %r on %r' % (f, [type(a).__name__ for a in args]))
 
     def call_opaque(self, f, args, kwargs):
         n = len(f.raises)
@@ -1163,12 +1179,15 @@ class Interp:
         if self.depth > 60:
             self.depth -= 1
             raise Unsupported('recursion depth')
+        pushed = False
         try:
             loc = self.bind(c, args, kwargs)
             env = Env(loc, c.cells, c.globs)
             env.qual = c.qualname
             if isinstance(c.node, ast.Lambda):
                 return self.eval(c.node.body, env)
+            self.fn_nodes.append(c.node)
+            pushed = True
             if c.is_gen:
                 loc['$yield'] = []
                 try:
@@ -1183,6 +1202,8 @@ class Interp:
             return None
         finally:
             self.depth -= 1
+            if pushed:
+                self.fn_nodes.pop()
 
     # -- classes / objects -----------------------------------------------------------
     def _class_lookup(self, cls, name):
@@ -1397,18 +1418,22 @@ def _call_closure_with_defclass(self, c, args, kwargs, force_body=False):
             env = Env(loc, c.cells, c.globs)
             env.qual = c.qualname
             env.defclass = c.defclass
-            if c.is_gen:
-                loc['$yield'] = []
+            self.fn_nodes.append(c.node)
+            try:
+                if c.is_gen:
+                    loc['$yield'] = []
+                    try:
+                        self.exec_block(c.node.body, env)
+                    except _Return:
+                        pass
+                    return loc['$yield']
                 try:
                     self.exec_block(c.node.body, env)
-                except _Return:
-                    pass
-                return loc['$yield']
-            try:
-                self.exec_block(c.node.body, env)
-            except _Return as r:
-                return r.v
-            return None
+                except _Return as r:
+                    return r.v
+                return None
+            finally:
+                self.fn_nodes.pop()
         finally:
             self.depth -= 1
     return _orig_call_closure(self, c, args, kwargs, force_body)
